@@ -176,4 +176,14 @@ func VerifActivityParts(a *Activity) (string, string, Tangible) {
 	return a.kind, name, a.target
 }
 
-func VerifFailureMessage(f *Failure) string { return f.message.Error() }
+/* the text of the failure, whatever type the field has */
+func VerifFailureMessage(f *Failure) string {
+	var m any = f.message
+	if e, ok := m.(error); ok {
+		return e.Error()
+	}
+	if t, ok := m.(string); ok {
+		return t
+	}
+	return ""
+}
